@@ -27,12 +27,15 @@ CONSTANTS Scopes,     \* scopes programs are generated for
           MaxStmts    \* statements per program ("free")
 
 HdrTargets(scope) == {o \o ".http." \o h : o \in Writable(scope), h \in {"H1", "h1", "H1:a", "H2"}}
+\* the headers that start not set / set and empty: written with the empty string, a literal, a local
+HdrEdge(scope) == {o \o ".http." \o h : o \in Writable(scope), h \in {"H3", "H4"}}
 HdrWhole(scope)   == {o \o ".http." \o h : o \in Writable(scope), h \in {"H1", "h1", "H2"}}
 HdrOperands(scope) == {o \o ".http." \o h : o \in Writable(scope), h \in {"H1", "H2"}}
 
 \* operand classes
 Opd(scope, sub, c) ==
   CASE c = "" -> {""}
+    [] c = "TIME" -> {n \in Visible(sub) : Ty(n) = "TIME"}
     [] c = "LSTR" -> {n \in Visible(sub) : Ty(n) = "STRING"}
     [] c = "STRING" -> {n \in Visible(sub) : Ty(n) = "STRING"} \cup HdrOperands(scope)
     [] OTHER -> {n \in Visible(sub) : Ty(n) = c}
@@ -48,6 +51,12 @@ Forms == {
   F("scatlit", "STRING", "STRING", ""), F("sif", "STRING", "BOOL", "LSTR"), F("supper", "STRING", "STRING", ""),
   F("sregsub", "STRING", "STRING", ""), F("sgroup", "STRING", "", ""), F("scatint", "STRING", "INTEGER", ""),
   F("sfcall", "STRING", "STRING", ""),
+  F("sempty", "STRING", "", ""), F("stplus", "STRING", "TIME", ""),
+  F("stmid", "STRING", "TIME", ""), F("stvar", "STRING", "TIME", ""),
+  F("tlit", "TIME", "", ""), F("tvar", "TIME", "TIME", ""),
+  F("band", "BOOL", "BOOL", "BOOL"), F("bor", "BOOL", "BOOL", "BOOL"), F("bne", "BOOL", "LSTR", "STRING"),
+  F("bnmatch", "BOOL", "STRING", ""), F("brge", "BOOL", "RTIME", "RTIME"), F("bfle", "BOOL", "FLOAT", "FLOAT"),
+  F("btgt", "BOOL", "TIME", "TIME"), F("bteq", "BOOL", "TIME", ""),
   F("blit", "BOOL", "", ""), F("bvar", "BOOL", "BOOL", ""), F("bnot", "BOOL", "BOOL", ""), F("blt", "BOOL", "INTEGER", "INTEGER"),
   F("bneglt", "BOOL", "INTEGER", ""), F("bmatch", "BOOL", "STRING", ""), F("beq", "BOOL", "LSTR", "STRING"),
   F("bfgt", "BOOL", "FLOAT", ""), F("bfneg", "BOOL", "FLOAT", ""), F("brneg", "BOOL", "RTIME", "") }
@@ -63,6 +72,7 @@ AssignOps(ty) == CASE ty \in {"INTEGER", "FLOAT"} -> {"=", "+=", "-=", "*="}
                    [] ty = "RTIME" -> {"=", "+=", "-="}
                    [] ty = "STRING" -> {"=", "+="}
                    [] ty = "BOOL" -> {"=", "&&=", "||="}
+                   [] ty = "TIME" -> {"=", "+=", "-="}
 BitOps == {"|=", "&=", "^=", "<<=", ">>=", "rol=", "ror="}
 
 Mk(k, t, op, e, fn, args) == [k |-> k, t |-> t, op |-> op, e |-> e, fn |-> fn, args |-> args]
@@ -76,17 +86,20 @@ Targets(scope, sub) == Visible(sub) \cup HdrTargets(scope)
 Heads(scope, sub, kind) ==
   CASE kind = "set" ->
          UNION {{H("set", t, op, "") : op \in AssignOps(Ty(t)) \cup (IF Ty(t) = "INTEGER" THEN BitOps ELSE {})} : t \in Targets(scope, sub)}
+         \cup {H("set", t, "=", "") : t \in HdrEdge(scope)}
     [] kind = "other" ->
-         {H("unset", t, "", "") : t \in HdrTargets(scope)} \cup {H("add", t, "=", "") : t \in HdrWhole(scope)} \cup {H("log", "", "", "")}
+         {H("unset", t, "", "") : t \in HdrTargets(scope) \cup HdrEdge(scope)} \cup {H("add", t, "=", "") : t \in HdrWhole(scope)} \cup {H("log", "", "", "")}
     [] kind = "call" ->
          (IF sub = "main" THEN {H("call", "", "", "f1")} ELSE {}) \cup (IF sub # "f2" THEN {H("call", "", "", "f2")} ELSE {})
     [] kind = "if" -> {H("if", "", "", "")}
-ArgS(scope, sub) == {x \in ExprsOf(scope, sub, "STRING") : x.f \in {"slit", "svar", "scatlit"}}
+ArgS(scope, sub) == {x \in ExprsOf(scope, sub, "STRING") : x.f \in {"slit", "svar", "scatlit", "stplus"}}
 ArgI(scope, sub) == {x \in ExprsOf(scope, sub, "INTEGER") : x.f \in {"ilit", "ivar", "ineg"}}
 \* bodies: [e, args]
 B(e, args) == [e |-> e, args |-> args]
 Bodies(scope, sub, h) ==
   CASE h.k = "set" -> IF h.op \in BitOps THEN {B(E("ibits", "", ""), <<>>)}
+                      ELSE IF h.t \in HdrEdge(scope) THEN {B(e, <<>>) : e \in {x \in ExprsOf(scope, sub, "STRING") : x.f \in {"sempty", "slit"} \/ (x.f = "svar" /\ IsLocal(x.x))}}
+                      ELSE IF Ty(h.t) = "TIME" /\ h.op # "=" THEN {B(e, <<>>) : e \in ExprsOf(scope, sub, "RTIME")}
                       ELSE {B(e, <<>>) : e \in ExprsOf(scope, sub, Ty(h.t))}
     [] h.k = "unset" -> {B(NoE, <<>>)}
     [] h.k = "add" -> {B(e, <<>>) : e \in {x \in ExprsOf(scope, sub, "STRING") : x.f \in {"slit", "svar"}}}
